@@ -7,24 +7,6 @@ use tracing_subscriber::filter::{EnvFilter, Targets};
 use tracing_subscriber::subscribe::Filter;
 use tv_harness::synth::mk_meta;
 
-pub const TARGETS: [&str; 7] = ["app", "application", "app::db", "app::db::pool", "other", "", "ap"];
-pub const FIELDSETS: [&[&str]; 4] = [&[], &["bar"], &["bar", "baz"], &["msg"]];
-
-fn universe() -> Vec<&'static Metadata<'static>> {
-    let mut v = Vec::new();
-    for t in TARGETS.iter() {
-        for r in 1..=5 {
-            for ev in [false, true] {
-                for fs in FIELDSETS.iter() {
-                    let f: Vec<String> = fs.iter().map(|s| s.to_string()).collect();
-                    v.push(mk_meta("m", t, r, ev, &f));
-                }
-            }
-        }
-    }
-    v
-}
-
 fn hint(h: Option<LevelFilter>) -> String {
     match h {
         None => "-".into(),
@@ -39,67 +21,10 @@ fn ichar(i: Interest) -> char {
     if i.is_always() { 'a' } else if i.is_never() { 'n' } else { 's' }
 }
 
+use tv_harness::fexpr::*;
 use std::cell::Cell;
-use tracing_subscriber::filter::{dynamic_filter_fn, filter_fn, FilterExt};
 use tracing_subscriber::subscribe::{CollectExt, Subscribe};
 use tracing_subscriber::Registry;
-
-thread_local! { static FLAG: Cell<bool> = const { Cell::new(false) }; }
-
-type BoxF = Box<dyn Filter<Registry> + Send + Sync>;
-
-fn lf(r: usize) -> LevelFilter {
-    match r { 0 => LevelFilter::OFF, 1 => LevelFilter::ERROR, 2 => LevelFilter::WARN, 3 => LevelFilter::INFO, 4 => LevelFilter::DEBUG, _ => LevelFilter::TRACE }
-}
-
-fn rank_of(m: &Metadata<'_>) -> usize {
-    let l = *m.level();
-    if l == tracing_core::Level::ERROR { 1 } else if l == tracing_core::Level::WARN { 2 } else if l == tracing_core::Level::INFO { 3 } else if l == tracing_core::Level::DEBUG { 4 } else { 5 }
-}
-
-/// prefix expression: L<l> | T<hex> | E<hex> | F<pred><k>h<hint|-> | D<k>h<hint|->c<-|g> | N | S e | & e e | "|" e e | ! e | R e | B e
-fn build(toks: &[&str], pos: &mut usize) -> BoxF {
-    let t = toks[*pos];
-    *pos += 1;
-    let b = t.as_bytes();
-    match b[0] {
-        b'L' => Box::new(lf(t[1..].parse().unwrap())),
-        b'T' => Box::new(tv_harness::unhex_str(&t[1..]).parse::<Targets>().expect("targets")),
-        b'E' => Box::new(EnvFilter::builder().parse(tv_harness::unhex_str(&t[1..])).expect("env")),
-        b'F' => {
-            let pred = b[1] - b'0';
-            let k: usize = (b[2] - b'0') as usize;
-            let hint = &t[4..];
-            let f = filter_fn(move |m| match pred {
-                0 => rank_of(m) <= k,
-                1 => m.target().contains("db") && rank_of(m) <= k,
-                _ => m.is_span() && rank_of(m) <= k,
-            });
-            if hint == "-" { Box::new(f) } else { Box::new(f.with_max_level_hint(lf(hint.parse().unwrap()))) }
-        }
-        b'D' => {
-            let k: usize = (b[1] - b'0') as usize;
-            let rest = &t[3..];
-            let (hint, cs) = rest.split_once('c').unwrap();
-            let f = dynamic_filter_fn(move |m: &Metadata<'_>, _cx: &tracing_subscriber::subscribe::Context<'_, Registry>| FLAG.with(|f| f.get()) && rank_of(m) <= k);
-            match (hint, cs) {
-                ("-", "-") => Box::new(f),
-                (h, "-") => Box::new(f.with_max_level_hint(lf(h.parse().unwrap()))),
-                ("-", _) => Box::new(f.with_callsite_filter(move |m: &'static Metadata<'static>| if rank_of(m) <= k { Interest::sometimes() } else { Interest::never() })),
-                (h, _) => Box::new(f.with_max_level_hint(lf(h.parse().unwrap())).with_callsite_filter(move |m: &'static Metadata<'static>| if rank_of(m) <= k { Interest::sometimes() } else { Interest::never() })),
-            }
-        }
-        b'N' => Box::new(None::<BoxF>),
-        b'S' => Box::new(Some(build(toks, pos))),
-        b'&' => { let a = build(toks, pos); let c = build(toks, pos); Box::new(a.and(c)) }
-        b'|' => { let a = build(toks, pos); let c = build(toks, pos); Box::new(a.or(c)) }
-        b'!' => Box::new(build(toks, pos).not()),
-        b'R' => { let (f, _h) = tracing_subscriber::reload::Subscriber::new(build(toks, pos)); Box::new(f) }
-        b'B' => Box::new(build(toks, pos)),
-        _ => panic!("bad expr token {}", t),
-    }
-}
-
 thread_local! { static SEEN: Cell<usize> = const { Cell::new(0) }; }
 struct Nop;
 impl<C: tracing::Collect> Subscribe<C> for Nop {
